@@ -100,6 +100,20 @@ impl<'a> P<'a> {
             let b = self.q();
             self.expect(b')');
             bx(sources::increment::Increment::new(a, b))
+        } else if self.eat("burst[") {
+            // a scripted leaf that is not fused: `-` = an end marker, items may follow it
+            let st = self.i;
+            while self.s[self.i] != b']' {
+                self.i += 1;
+            }
+            let inner = std::str::from_utf8(&self.s[st..self.i]).unwrap().to_string();
+            self.i += 1;
+            let items = if inner.is_empty() {
+                vec![]
+            } else {
+                inner.split(',').map(|t| if t == "-" { None } else { Some(Q::from_val(parse_val(t))) }).collect()
+            };
+            bx(BurstSrc { items, at: 0 })
         } else if self.eat("take(") {
             let n = self.n();
             self.expect(b',');
@@ -415,6 +429,7 @@ type Log = Rc<RefCell<Vec<Vec<Q>>>>;
 
 /// stages defined by the harness itself: simple, stateful, mutually non-commuting (the pipe property must
 /// not depend on any library filter being right)
+#[derive(Clone)]
 pub enum OwnStage {
     Acc { sum: Q, a: Q },
     Affine { a: Q, b: Q },
@@ -441,6 +456,84 @@ impl OwnStage {
         }
     }
 }
+pub fn parse_own_stage(l: &str) -> OwnStage {
+    let parts: Vec<&str> = l.split(';').collect();
+    let lkv = filt::parse_kv(&parts[1..]);
+    let q = |k: &str| Q::from_val(parse_val(lkv.get(k).expect("harness: missing stage parameter")));
+    match parts[0] {
+        "p_acc" => OwnStage::Acc { sum: Q::int(0), a: q("a") },
+        "p_affine" => OwnStage::Affine { a: q("a"), b: q("b") },
+        "p_lag" => OwnStage::Lag { prev: q("init") },
+        "p_max" => OwnStage::RunMax { m: None },
+        k => panic!("harness: not one of the harness's own stages: {}", k),
+    }
+}
+
+/// a stateful, clonable stage for the statically typed pipes that are copied (`clone`, `clone_from`)
+#[derive(Clone)]
+pub struct OStage(pub OwnStage);
+impl Filter<Q> for OStage {
+    type Output = Q;
+    fn filter(&mut self, x: Q) -> Q {
+        self.0.step(x)
+    }
+}
+
+/// statically typed, clonable pipes of stateful stages: a copy of a pipe (`clone()`, or `clone_from` into an
+/// existing pipe of the same type) is a pipe of copies of all its stages
+#[derive(Clone)]
+pub enum CPipe {
+    C1(Pipe<OStage, OStage>),
+    C2(Pipe<Pipe<OStage, OStage>, OStage>),
+    C3(Pipe<OStage, Pipe<OStage, OStage>>),
+    C4(<Pipe<OStage, OStage> as BitOr<OStage>>::Output),
+    C5(Pipe<UnitPipe<OStage>, OStage>),
+}
+pub const CPIPE_SHAPES: [(&str, &str, usize); 5] = [
+    ("C1", "P(L0,L1)", 2),
+    ("C2", "P(P(L0,L1),L2)", 3),
+    ("C3", "P(L0,P(L1,L2))", 3),
+    ("C4", "O(P(L0,L1),L2)", 3),
+    ("C5", "P(U(L0),L1)", 2),
+];
+impl CPipe {
+    pub fn build(name: &str, shape: &str, leaves: &str) -> CPipe {
+        let (_, want, k) = *CPIPE_SHAPES.iter().find(|e| e.0 == name).expect("harness: unknown clonable static pipe");
+        assert_eq!(shape, want, "harness: clonable static pipe described differently");
+        let mut st: Vec<OStage> = leaves.split('|').map(|l| OStage(parse_own_stage(l))).collect();
+        assert_eq!(st.len(), k, "harness: wrong number of stages");
+        st.reverse();
+        let mut next = || st.pop().unwrap();
+        match name {
+            "C1" => { let (a, b) = (next(), next()); CPipe::C1(Pipe::new(a, b)) }
+            "C2" => { let (a, b, c) = (next(), next(), next()); CPipe::C2(Pipe::new(Pipe::new(a, b), c)) }
+            "C3" => { let (a, b, c) = (next(), next(), next()); CPipe::C3(Pipe::new(a, Pipe::new(b, c))) }
+            "C4" => { let (a, b, c) = (next(), next(), next()); CPipe::C4(Pipe::new(a, b) | c) }
+            _ => { let (a, b) = (next(), next()); CPipe::C5(Pipe::new(UnitPipe::new(a), b)) }
+        }
+    }
+    pub fn filter(&mut self, x: Q) -> Q {
+        match self {
+            CPipe::C1(p) => p.filter(x),
+            CPipe::C2(p) => p.filter(x),
+            CPipe::C3(p) => p.filter(x),
+            CPipe::C4(p) => p.filter(x),
+            CPipe::C5(p) => p.filter(x),
+        }
+    }
+    /// `self.clone_from(other)` on the pipes themselves (both must be of the same static type)
+    pub fn clone_from_pipe(&mut self, other: &CPipe) {
+        match (self, other) {
+            (CPipe::C1(a), CPipe::C1(b)) => a.clone_from(b),
+            (CPipe::C2(a), CPipe::C2(b)) => a.clone_from(b),
+            (CPipe::C3(a), CPipe::C3(b)) => a.clone_from(b),
+            (CPipe::C4(a), CPipe::C4(b)) => a.clone_from(b),
+            (CPipe::C5(a), CPipe::C5(b)) => a.clone_from(b),
+            _ => panic!("harness: clone_from between pipes of different static types"),
+        }
+    }
+}
+
 pub enum ProbeInner {
     Lib(Box<dyn Inst>),
     Own(OwnStage),
@@ -692,6 +785,8 @@ enum PipeTop {
     K(Option<KDyn>),
     /// a statically typed pipe of zero-sized stages (zpipes.rs)
     Z(crate::zpipes::ZPipe, String),
+    /// a statically typed, clonable pipe of stateful stages
+    C(CPipe),
 }
 struct PipeInst {
     top: PipeTop,
@@ -717,6 +812,11 @@ fn id(s: &str) -> u32 {
 fn build_pipe(line: &str) -> PipeInst {
     let toks: Vec<&str> = line.split_whitespace().collect();
     let kv = filt::parse_kv(&toks[3..]);
+    if let Some(name) = kv.get("static").filter(|n| n.starts_with('C')) {
+        let log: Log = Rc::new(RefCell::new(Vec::new()));
+        let c = CPipe::build(name, kv.get("shape").expect("harness: pipe without shape"), kv.get("leaves").expect("harness: no leaves"));
+        return PipeInst { top: PipeTop::C(c), log, fed: Vec::new(), line: line.to_string() };
+    }
     if let Some(name) = kv.get("static") {
         assert_eq!(toks[2..].join(" "), crate::zpipes::describe(name), "harness: static pipe described differently");
         let log: Log = Rc::new(RefCell::new(Vec::new()));
@@ -824,8 +924,31 @@ impl Other {
                 match &mut self.pipes.get_mut(&id(toks[1])).expect("harness: unknown pipe id").top {
                     PipeTop::F(d) => Some(d.filter(x).r()),
                     PipeTop::Z(z, _) => Some(z.filter(x).r()),
+                    PipeTop::C(c) => Some(c.filter(x).r()),
                     _ => panic!("harness: pf on a non-filter pipe"),
                 }
+            }
+            // copies of statically typed pipes: `pclone a b` (b = a.clone()), `pclonefrom a b` (a.clone_from(&b))
+            "pclone" | "pclonefrom" => {
+                let (a, b) = (id(toks[1]), id(toks[2]));
+                if toks[0] == "pclone" {
+                    let copy = match &self.pipes[&a].top {
+                        PipeTop::C(c) => c.clone(),
+                        _ => panic!("harness: pclone of a pipe that is not clonable"),
+                    };
+                    let line = self.pipes[&a].line.clone();
+                    self.pipes.insert(b, PipeInst { top: PipeTop::C(copy), log: Rc::new(RefCell::new(Vec::new())), fed: Vec::new(), line });
+                } else {
+                    let src = match &self.pipes[&b].top {
+                        PipeTop::C(c) => c.clone(),
+                        _ => panic!("harness: pclonefrom a pipe that is not clonable"),
+                    };
+                    match &mut self.pipes.get_mut(&a).expect("harness: unknown pipe id").top {
+                        PipeTop::C(c) => c.clone_from_pipe(&src),
+                        _ => panic!("harness: pclonefrom into a pipe that is not clonable"),
+                    }
+                }
+                Some("ok".into())
             }
             "ppull" => match &mut self.pipes.get_mut(&id(toks[1])).expect("harness: unknown pipe id").top {
                 PipeTop::S(d) => Some(d.source().r()),
